@@ -53,6 +53,12 @@ pub struct Request {
     /// [IntrospectionMode::Enabled]).
     #[serde(skip)]
     pub introspection_mode: IntrospectionMode,
+
+    /// Refuse to execute a mutation operation for this request (set for
+    /// requests received over HTTP GET, see
+    /// [`parse_query_string`](crate::http::parse_query_string)).
+    #[serde(skip)]
+    pub(crate) disallow_mutation: bool,
 }
 
 impl Request {
@@ -67,7 +73,17 @@ impl Request {
             extensions: Default::default(),
             parsed_query: None,
             introspection_mode: IntrospectionMode::Enabled,
+            disallow_mutation: false,
         }
+    }
+
+    /// Refuse to execute a mutation operation for this request: it is
+    /// answered with an error and no resolver runs. Integrations set this for
+    /// requests received over HTTP GET.
+    #[must_use]
+    pub fn disallow_mutation(mut self) -> Self {
+        self.disallow_mutation = true;
+        self
     }
 
     /// Specify the operation name of the request.
